@@ -376,4 +376,299 @@ theorem chooseOp_acc {κ : Type} (opName : String) (ops : List (Op κ)) :
 theorem chooseOp_eq_chosen {κ : Type} (opName : String) (ops : List (Op κ)) :
     chooseOp opName ops none = Spec.chosen opName ops := (chooseOp_acc opName ops).1
 
+theorem chosen_mem {κ : Type} {opName : String} {ops : List (Op κ)} {o : Op κ}
+    (h : Spec.chosen opName ops = some o) : o ∈ ops := by
+  unfold Spec.chosen at h
+  split at h
+  · rename_i o' hf
+    simp only [Option.some.injEq] at h
+    subst h
+    have : o' ∈ ops.filter (fun d => opName == "" || d.name == some opName) := by rw [hf]; simp
+    exact (List.mem_filter.mp this).1
+  · cases h
+
+theorem rep_zero : rep 0 = 0 := by decide
+theorem rep_one : rep 1 = 1 := by decide
+
+theorem rep_neg_iff (R : Nat) : rep R < 0 ↔ (9223372036854775807 : Int) < R := by
+  unfold rep
+  have : (0 : Int) ≤ R := Int.natCast_nonneg R
+  split <;> omega
+
+/-- The property's domain for a document: every cost function returns a resolver cost in
+    `[0, maxInt]` and a Go-int multiplier, whatever context it is given. -/
+def Doc.OK {κ : Type} (doc : Doc κ) : Prop := (∀ o ∈ doc.ops, o.node.OK) ∧ FragsOK doc.frags
+
+/-- The rule's final `cost` variable is the saturated reference cost; a document outside the
+    reference's domain stops the walk with a (non-panic) error. -/
+theorem finalCost_eq {κ : Type} (ctx0 : κ) (opName : String) (dflt : FieldCost κ) (doc : Doc κ)
+    (hdoc : doc.OK) (hd : dflt.OK) :
+    match Spec.refCost ctx0 opName dflt doc with
+    | some R => finalCost ctx0 opName true dflt doc = .ok (rep R)
+    | none => ∃ e, finalCost ctx0 opName true dflt doc = .error e ∧ e.NotPanic := by
+  unfold finalCost Spec.refCost
+  rw [chooseOp_eq_chosen]
+  cases hc : Spec.chosen opName doc.ops with
+  | none => simp only; exact congrArg _ rep_zero.symm
+  | some o =>
+    simp only [if_true]
+    have hok : o.node.OK := hdoc.1 o (chosen_mem hc)
+    have h := walk_tracks doc.frags hdoc.2 dflt hd doc.frags.length [] o.node hok 0 1 [] ctx0 []
+    rw [rep_zero, rep_one] at h
+    unfold Tracks at h
+    cases hr : Spec.ref doc.frags dflt doc.frags.length [] 1 ctx0 o.node with
+    | some R =>
+      rw [hr] at h
+      simp only at h ⊢
+      rw [h]
+      simp [bind, Except.bind]
+    | none =>
+      rw [hr] at h
+      obtain ⟨e, he, hp⟩ := h
+      exact ⟨e, by rw [he]; rfl, hp⟩
+
+/-! ### The model's fuel never runs out (the Go recursion terminates) -/
+
+/-- A result that is not the model's out-of-fuel artefact. -/
+def NoOOF {α : Type} (res : Except Abort α) : Prop := res ≠ .error .outOfFuel
+
+theorem NoOOF.bind {α β : Type} {x : Except Abort α} {f : α → Except Abort β} (hx : NoOOF x)
+    (hf : ∀ a, NoOOF (f a)) : NoOOF (x >>= f) := by
+  cases x with
+  | error e => intro h; apply hx; simpa [Bind.bind, Except.bind] using h
+  | ok a => exact hf a
+
+theorem liftArith_noOOF (o : Option Int) : NoOOF (liftArith o) := by
+  cases o <;> intro h <;> cases h
+
+theorem charge_noOOF {κ : Type} (fc : FieldCost κ) (st : St κ) (m : Int) (c : κ) :
+    NoOOF (charge fc st m c) := by
+  unfold charge
+  refine NoOOF.bind (liftArith_noOOF _) fun prod => NoOOF.bind (liftArith_noOOF _) fun cost =>
+    NoOOF.bind ?_ fun newM => fun h => by cases h
+  split
+  · exact liftArith_noOOF _
+  · intro h; cases h
+
+theorem pop_noOOF {κ : Type} (st : St κ) : NoOOF (pop st) := by
+  unfold pop; split <;> intro h <;> cases h
+
+mutual
+theorem visit_noOOF {κ : Type} (W : String → St κ → Except Abort (St κ))
+    (hW : ∀ name st, NoOOF (W name st)) (dflt : FieldCost κ) :
+    ∀ (node : Node κ) (st : St κ), NoOOF (visit W dflt node st)
+  | .field src children, st => by
+    unfold visit
+    split
+    · refine NoOOF.bind ?_ fun r => NoOOF.bind (visitList_noOOF W hW dflt children _) fun st' => pop_noOOF st'
+      cases src with
+      | typename => intro h; cases h
+      | unknown => intro h; cases h
+      | argError => intro h; cases h
+      | default => exact charge_noOOF _ _ _ _
+      | fn f => exact charge_noOOF _ _ _ _
+    · intro h; cases h
+  | .spread name children, st => by
+    unfold visit
+    split
+    · exact NoOOF.bind (hW name st) fun st1 =>
+        NoOOF.bind (visitList_noOOF W hW dflt children _) fun st' => pop_noOOF st'
+    · intro h; cases h
+  | .other children, st => by
+    unfold visit
+    split
+    · exact NoOOF.bind (visitList_noOOF W hW dflt children _) fun st' => pop_noOOF st'
+    · intro h; cases h
+theorem visitList_noOOF {κ : Type} (W : String → St κ → Except Abort (St κ))
+    (hW : ∀ name st, NoOOF (W name st)) (dflt : FieldCost κ) :
+    ∀ (nodes : List (Node κ)) (st : St κ), NoOOF (visitList W dflt nodes st)
+  | [], st => by unfold visitList; intro h; cases h
+  | n :: ns, st => by
+    unfold visitList
+    exact NoOOF.bind (visit_noOOF W hW dflt n st) fun st' => visitList_noOOF W hW dflt ns st'
+end
+
+/-- Pigeonhole: a duplicate-free list inside `k` that is at least as long as `k` covers `k`. -/
+theorem subset_of_nodup_of_length_le {l k : List String} (hn : l.Nodup) (hs : l ⊆ k)
+    (hl : k.length ≤ l.length) : k ⊆ l := by
+  intro x hx
+  by_cases hxl : x ∈ l
+  · exact hxl
+  · exfalso
+    have hn' : (x :: l).Nodup := List.nodup_cons.mpr ⟨hxl, hn⟩
+    have hs' : (x :: l) ⊆ k := by
+      intro y hy
+      rcases List.mem_cons.mp hy with rfl | hy
+      · exact hx
+      · exact hs hy
+    have := List.Nodup.length_le_of_subset hn' hs'
+    simp only [List.length_cons] at this
+    omega
+
+/-- The names of the fragment definitions. -/
+def fragNames {κ : Type} (frags : List (String × Node κ)) : List String := frags.map (·.1)
+
+theorem walk_noOOF {κ : Type} (frags : List (String × Node κ)) (dflt : FieldCost κ) :
+    ∀ (fuel : Nat) (path : List String), path.Nodup → path ⊆ fragNames frags →
+      frags.length ≤ path.length + fuel →
+      ∀ (node : Node κ) (st : St κ), NoOOF (walk frags dflt fuel path node st) := by
+  intro fuel
+  induction fuel with
+  | zero =>
+    intro path hn hs hl node st
+    simp only [walk]
+    refine visit_noOOF _ ?_ dflt node st
+    intro name st'
+    unfold onSpreadWith
+    split
+    · intro h; cases h
+    · rename_i hnp
+      cases hf : findFrag frags name with
+      | none => intro h; cases h
+      | some d =>
+        exfalso
+        have hmem : name ∈ fragNames frags := List.mem_map_of_mem (f := (·.1)) (findFrag_mem hf)
+        have hlen : (fragNames frags).length ≤ path.length := by
+          simp only [fragNames, List.length_map]; omega
+        exact hnp (subset_of_nodup_of_length_le hn hs hlen hmem)
+  | succ f ih =>
+    intro path hn hs hl node st
+    simp only [walk]
+    refine visit_noOOF _ ?_ dflt node st
+    intro name st'
+    unfold onSpreadWith
+    split
+    · intro h; cases h
+    · rename_i hnp
+      cases hf : findFrag frags name with
+      | none => intro h; cases h
+      | some d =>
+        have hmem : name ∈ fragNames frags := List.mem_map_of_mem (f := (·.1)) (findFrag_mem hf)
+        refine ih (name :: path) (List.nodup_cons.mpr ⟨hnp, hn⟩) ?_ ?_ d st'
+        · intro y hy
+          rcases List.mem_cons.mp hy with rfl | hy
+          · exact hmem
+          · exact hs hy
+        · simp only [List.length_cons]; omega
+
+/-! ### Validated documents are in the reference's domain -/
+
+/-- The field has a definition and its arguments coerce. -/
+def CostSrc.Defined {κ : Type} : CostSrc κ → Prop
+  | .unknown => False
+  | .argError => False
+  | _ => True
+
+mutual
+/-- The fragment names spread anywhere inside the node (not looking into the fragments). -/
+def spreadNames {κ : Type} : Node κ → List String
+  | .field _ children => spreadNamesL children
+  | .spread name children => name :: spreadNamesL children
+  | .other children => spreadNamesL children
+def spreadNamesL {κ : Type} : List (Node κ) → List String
+  | [] => []
+  | n :: ns => spreadNames n ++ spreadNamesL ns
+end
+
+mutual
+def Node.Clean {κ : Type} : Node κ → Prop
+  | .field src children => src.Defined ∧ CleanL children
+  | .spread _ children => CleanL children
+  | .other children => CleanL children
+def CleanL {κ : Type} : List (Node κ) → Prop
+  | [] => True
+  | n :: ns => n.Clean ∧ CleanL ns
+end
+
+mutual
+theorem refNode_isSome {κ : Type} (E : String → Nat → κ → Option Nat) (dflt : FieldCost κ) :
+    ∀ (node : Node κ), node.Clean → (∀ g ∈ spreadNames node, ∀ M c, (E g M c).isSome) →
+      ∀ M c, (Spec.refNode E dflt M c node).isSome
+  | .field src children, hc, hE, M, c => by
+    rw [Node.Clean] at hc
+    rw [spreadNames] at hE
+    cases src with
+    | typename => simp only [Spec.refNode]; exact refList_isSome E dflt children hc.2 hE M c
+    | unknown => exact absurd hc.1 (by simp [CostSrc.Defined])
+    | argError => exact absurd hc.1 (by simp [CostSrc.Defined])
+    | default =>
+      simp only [Spec.refNode, Option.isSome_map]
+      exact refList_isSome E dflt children hc.2 hE _ _
+    | fn f =>
+      simp only [Spec.refNode, Option.isSome_map]
+      exact refList_isSome E dflt children hc.2 hE _ _
+  | .spread name children, hc, hE, M, c => by
+    rw [Node.Clean] at hc
+    rw [spreadNames] at hE
+    have h1 := hE name (List.mem_cons_self) M c
+    have h2 := refList_isSome E dflt children hc (fun g hg => hE g (List.mem_cons_of_mem _ hg)) M c
+    simp only [Spec.refNode]
+    cases ha : E name M c with
+    | none => rw [ha] at h1; cases h1
+    | some a =>
+      cases hb : Spec.refList E dflt M c children with
+      | none => rw [hb] at h2; cases h2
+      | some b => rfl
+  | .other children, hc, hE, M, c => by
+    rw [Node.Clean] at hc
+    rw [spreadNames] at hE
+    simp only [Spec.refNode]
+    exact refList_isSome E dflt children hc hE M c
+theorem refList_isSome {κ : Type} (E : String → Nat → κ → Option Nat) (dflt : FieldCost κ) :
+    ∀ (nodes : List (Node κ)), CleanL nodes → (∀ g ∈ spreadNamesL nodes, ∀ M c, (E g M c).isSome) →
+      ∀ M c, (Spec.refList E dflt M c nodes).isSome
+  | [], _, _, M, c => by simp [Spec.refList]
+  | n :: ns, hc, hE, M, c => by
+    rw [CleanL] at hc
+    rw [spreadNamesL] at hE
+    have h1 := refNode_isSome E dflt n hc.1 (fun g hg => hE g (List.mem_append_left _ hg)) M c
+    have h2 := refList_isSome E dflt ns hc.2 (fun g hg => hE g (List.mem_append_right _ hg)) M c
+    simp only [Spec.refList]
+    cases ha : Spec.refNode E dflt M c n with
+    | none => rw [ha] at h1; cases h1
+    | some a =>
+      cases hb : Spec.refList E dflt M c ns with
+      | none => rw [hb] at h2; cases h2
+      | some b => rfl
+end
+
+/-- What validation guarantees about fragments, stated with a topological order: `order` lists
+    fragment names, each defined and clean, and every fragment only spreads fragments listed
+    *earlier* (so spreads are acyclic). -/
+structure FragsValid {κ : Type} (frags : List (String × Node κ)) (order : List String) : Prop where
+  nodup : order.Nodup
+  defined : ∀ g ∈ order, ∃ d, findFrag frags g = some d ∧ d.Clean ∧
+    ∀ g' ∈ spreadNames d, g' ∈ order ∧ order.idxOf g' < order.idxOf g
+
+theorem ref_isSome_of_valid {κ : Type} (frags : List (String × Node κ)) (order : List String)
+    (hv : FragsValid frags order) (dflt : FieldCost κ) :
+    ∀ (fuel : Nat) (path : List String) (node : Node κ), node.Clean →
+      (∀ g ∈ spreadNames node, g ∈ order ∧ order.idxOf g < fuel ∧ ∀ p ∈ path, order.idxOf g < order.idxOf p) →
+      ∀ M c, (Spec.ref frags dflt fuel path M c node).isSome := by
+  intro fuel
+  induction fuel with
+  | zero =>
+    intro path node hc hs M c
+    simp only [Spec.ref]
+    refine refNode_isSome _ dflt node hc ?_ M c
+    intro g hg
+    exact absurd (hs g hg).2.1 (Nat.not_lt_zero _)
+  | succ f ih =>
+    intro path node hc hs M c
+    simp only [Spec.ref]
+    refine refNode_isSome _ dflt node hc ?_ M c
+    intro g hg M' c'
+    obtain ⟨hgo, hgf, hgp⟩ := hs g hg
+    obtain ⟨d, hfd, hdc, hds⟩ := hv.defined g hgo
+    have hnp : g ∉ path := fun h => Nat.lt_irrefl _ (hgp g h)
+    simp only [Spec.expandWith, hnp, if_false, hfd]
+    refine ih (g :: path) d hdc ?_ M' c'
+    intro g' hg'
+    obtain ⟨hg'o, hlt⟩ := hds g' hg'
+    refine ⟨hg'o, by omega, ?_⟩
+    intro p hp
+    rcases List.mem_cons.mp hp with rfl | hp
+    · exact hlt
+    · exact Nat.lt_trans hlt (hgp p hp)
+
 end ApiFu.C14
